@@ -43,7 +43,8 @@ fn opt_text(class: &str, r: &mut Rng) -> (String, i32) {
             (t, v)
         }
         "overflow" => (r.pick(&["2147483648", "-2147483649", "99999999999999999999", "1e3", "0x10", " 5", "5 ", "1_000"]).to_string(), 0),
-        "keyword" => (r.pick(&["grayscale", "two-sided-long-edge", "TRUE", "False", "", "iso_a4_210x297mm", "naïve"]).to_string(), 0),
+        "keyword" => (r.pick(&["grayscale", "two-sided-long-edge", "TRUE", "False", "", "iso_a4_210x297mm", "naïve", "1-3,7", "standard,none",
+            "a b", "semi;colon", "q\"uote", "tab\there", "-", "--x", "1.5", "１２"]).to_string(), 0),
         "eqinside" => (r.pick(&["a=b", "=", "x==y", "k=v=w"]).to_string(), 0),
         _ => (String::new(), 0),
     }
